@@ -385,10 +385,14 @@ func buildLinkEvent(graph *Graph, eventType, from, to string) (Event, error) {
 		if hasCycle(graph, from, to) {
 			return Event{}, errors.New("dependency would create a cycle")
 		}
+		alreadyStuck := hasWaitCycle(graph) // never block edits on a log that predates this check
 		if graph.Deps[from] == nil {
 			graph.Deps[from] = map[string]struct{}{}
 		}
 		graph.Deps[from][to] = struct{}{}
+		if !alreadyStuck && hasWaitCycle(graph) {
+			return Event{}, errors.New("dependency would create a cycle through epic dependencies")
+		}
 	} else if graph.Deps[from] != nil {
 		delete(graph.Deps[from], to)
 	}
@@ -452,6 +456,13 @@ func createTaskWithDir(dir string, opts GlobalOptions, lockPath, eventsPath, epi
 		event, err := newEvent(eventType, now, payload)
 		if err != nil {
 			return err
+		}
+		if !isEpic && epicID != "" {
+			alreadyStuck := hasWaitCycle(graph)
+			graph.Tasks[id] = &Task{ID: id, EpicID: epicID, State: stateTodo}
+			if !alreadyStuck && hasWaitCycle(graph) {
+				return errors.New("task would create a cycle through epic dependencies")
+			}
 		}
 		events := []Event{event}
 		state := stateTodo
